@@ -24,7 +24,9 @@ package peer_test
 // Whether the routes/relays of Y survive is judged by the agent part (real Agent).
 
 import (
+	"bytes"
 	"context"
+	"runtime"
 	"encoding/binary"
 	"errors"
 	"fmt"
@@ -108,11 +110,29 @@ type c32ConnInfo struct {
 	badFrames int
 }
 
+// c32Goid returns the id of the calling goroutine (enter and exit hook points of one
+// handleDisconnect call run on the same goroutine; that is how they are paired).
+func c32Goid() uint64 {
+	var buf [64]byte
+	b := buf[:runtime.Stack(buf[:], false)]
+	b = bytes.TrimPrefix(b, []byte("goroutine "))
+	if i := bytes.IndexByte(b, ' '); i > 0 {
+		b = b[:i]
+	}
+	v, _ := strconv.ParseUint(string(b), 10, 64)
+	return v
+}
+
 type c32Teardown struct {
+	goid       uint64
 	conn       *peer.Connection
 	nth        int              // 1 = first handleDisconnect for this connection, 2 = second ...
 	registered *peer.Connection // GetPeer(id) when the call was let through
 	stale      bool
+	// recorded by the exit hook, i.e. at the very moment handleDisconnect returned
+	afterReg     *peer.Connection
+	afterClosed  bool // the connection registered at entry is closed at exit
+	otherTouched bool // ... but the harness killed it, or its own teardown had started: not judged
 	release    chan struct{}
 	entered    chan struct{}
 	exited     chan struct{}
@@ -143,6 +163,7 @@ type c32World struct {
 	discCalls []*peer.Connection
 	teardowns []*c32Teardown
 	holdNext  map[*peer.Connection]int // conn -> hold the n-th enter (0 = none)
+	killed    map[*peer.Connection]bool // connections the harness has started to kill
 	steps     []string
 	hookSeen  bool
 	broken    bool
@@ -174,11 +195,33 @@ func (w *c32World) logf(f string, a ...any) {
 }
 
 func (w *c32World) violate(key, detail string) {
+	cur := w.mgr.GetPeer(w.idB)
 	w.mu.Lock()
 	steps := append([]string(nil), w.steps...)
 	w.broken = true
+	var tds, conns []string
+	for _, t := range w.teardowns {
+		exited := false
+		select {
+		case <-t.exited:
+			exited = true
+		default:
+		}
+		reg := "none"
+		if t.registered != nil {
+			reg = fmt.Sprintf("conn#%d", c32Serial(t.registered.LocalAddr()))
+		}
+		tds = append(tds, fmt.Sprintf("teardown conn#%d nth=%d held=%v registered-at-start=%s stale=%v exited=%v", c32Serial(t.conn.LocalAddr()), t.nth, t.release != nil, reg, t.stale, exited))
+	}
+	for _, ci := range w.conns {
+		conns = append(conns, fmt.Sprintf("conn#%d dialer=%v announced=%v closed=%v frames=%d", ci.serial, ci.conn.IsDialer(), ci.announced, c32Closed(ci.conn), ci.frames))
+	}
 	w.mu.Unlock()
-	w.r.Violation(key, w.phase, w.ci, detail, map[string]any{"steps": steps})
+	now := "none"
+	if cur != nil {
+		now = fmt.Sprintf("conn#%d closed=%v", c32Serial(cur.LocalAddr()), c32Closed(cur))
+	}
+	w.r.Violation(key, w.phase, w.ci, detail, map[string]any{"steps": steps, "teardowns": tds, "connections": conns, "registered_now": now})
 }
 
 // hook sink
@@ -191,7 +234,7 @@ func (w *c32World) enter(conn *peer.Connection) {
 			n++
 		}
 	}
-	td := &c32Teardown{conn: conn, nth: n, entered: make(chan struct{}), exited: make(chan struct{})}
+	td := &c32Teardown{goid: c32Goid(), conn: conn, nth: n, entered: make(chan struct{}), exited: make(chan struct{})}
 	if w.holdNext[conn] == n {
 		td.release = make(chan struct{})
 	}
@@ -211,17 +254,31 @@ func (w *c32World) enter(conn *peer.Connection) {
 }
 
 func (w *c32World) exit(conn *peer.Connection) {
+	now := w.mgr.GetPeer(conn.RemoteID)
+	gid := c32Goid()
 	w.mu.Lock()
 	for i := len(w.teardowns) - 1; i >= 0; i-- {
-		if t := w.teardowns[i]; t.conn == conn {
-			select {
-			case <-t.exited:
-				continue
-			default:
-			}
-			close(t.exited)
-			break
+		t := w.teardowns[i]
+		if t.conn != conn || t.goid != gid {
+			continue
 		}
+		select {
+		case <-t.exited:
+			continue
+		default:
+		}
+		t.afterReg = now
+		if t.registered != nil {
+			t.afterClosed = c32Closed(t.registered)
+			t.otherTouched = w.killed[t.registered]
+			for _, o := range w.teardowns {
+				if o.conn == t.registered {
+					t.otherTouched = true
+				}
+			}
+		}
+		close(t.exited)
+		break
 	}
 	w.cond.Broadcast()
 	w.mu.Unlock()
@@ -258,7 +315,8 @@ func (w *c32World) waitFor(what string, cond func() bool) bool {
 func newC32World(r *verifkit.R, phase string, ci int, rng *verifkit.Rand, keepalive time.Duration) *c32World {
 	w := &c32World{r: r, phase: phase, ci: ci, rng: rng, net: c32memnet.New(),
 		conns: map[*peer.Connection]*c32ConnInfo{}, bySerial: map[uint64]*c32ConnInfo{},
-		memA: map[uint64]*c32memnet.Conn{}, bEnds: map[uint64]*peer.Connection{}, holdNext: map[*peer.Connection]int{}}
+		memA: map[uint64]*c32memnet.Conn{}, bEnds: map[uint64]*peer.Connection{}, holdNext: map[*peer.Connection]int{},
+		killed: map[*peer.Connection]bool{}}
 	w.cond = sync.NewCond(&w.mu)
 	rng.Fill(w.idA[:])
 	rng.Fill(w.idB[:])
@@ -463,6 +521,10 @@ func (w *c32World) check(where string) {
 		w.mu.Lock()
 		ann := w.announces
 		open, unannouncedWithFrames, cross = nil, nil, nil
+		regAnnounced := false
+		if ci := w.conns[reg]; ci != nil && ci.announced {
+			regAnnounced = true
+		}
 		for _, ci := range w.conns {
 			if ci.announced && !c32Closed(ci.conn) {
 				open = append(open, ci)
@@ -481,7 +543,8 @@ func (w *c32World) check(where string) {
 		w.mu.Unlock()
 		if stable && w.registered() == reg {
 			// a registered but not yet announced connection means a registration is in progress
-			if reg == nil || func() bool { w.mu.Lock(); defer w.mu.Unlock(); ci := w.conns[reg]; return ci != nil && ci.announced }() || c32Closed(reg) {
+			// (judged on what the scan itself saw, so that the snapshot is one point in time)
+			if reg == nil || regAnnounced {
 				break
 			}
 		}
@@ -525,23 +588,30 @@ func (w *c32World) judgeTeardowns(judged map[*c32Teardown]bool) {
 		}
 		judged[t] = true
 		w.r.Add("teardowns_observed", 1)
-		if t.nth >= 2 {
+		w.mu.Lock()
+		nth, stale, reg, afterReg, afterClosed, touched := t.nth, t.stale, t.registered, t.afterReg, t.afterClosed, t.otherTouched
+		w.mu.Unlock()
+		if nth >= 2 {
 			w.r.Add("second_teardowns_of_same_connection", 1)
 		}
-		if !t.stale {
+		if !stale {
+			continue
+		}
+		if touched {
+			// the registered connection was itself being taken down (by the harness) meanwhile
+			w.r.Add("stale_teardowns_not_judged_other_connection_dying", 1)
 			continue
 		}
 		w.r.Add("stale_teardowns_judged", 1)
-		now := w.mgr.GetPeer(t.conn.RemoteID)
 		switch {
-		case now != t.registered:
+		case afterReg != reg:
 			w.violate("stale-teardown:registration-of-current-connection-removed",
-				fmt.Sprintf("handleDisconnect of conn#%d ran while conn#%d was the registered open connection; afterwards GetPeer no longer returns it",
-					c32Serial(t.conn.LocalAddr()), c32Serial(t.registered.LocalAddr())))
-		case c32Closed(t.registered):
+				fmt.Sprintf("handleDisconnect of conn#%d ran while conn#%d was the registered open connection; when it returned GetPeer no longer returned that connection",
+					c32Serial(t.conn.LocalAddr()), c32Serial(reg.LocalAddr())))
+		case afterClosed:
 			w.violate("stale-teardown:current-connection-closed",
-				fmt.Sprintf("handleDisconnect of conn#%d ran while conn#%d was the registered open connection; afterwards that connection is closed",
-					c32Serial(t.conn.LocalAddr()), c32Serial(t.registered.LocalAddr())))
+				fmt.Sprintf("handleDisconnect of conn#%d ran while conn#%d was the registered open connection; when it returned that connection was closed",
+					c32Serial(t.conn.LocalAddr()), c32Serial(reg.LocalAddr())))
 		}
 		w.mu.Lock()
 		n := 0
@@ -640,6 +710,9 @@ func c32ManagerCase(r *verifkit.R, phase string, ci int, rng *verifkit.Rand) {
 			return
 		}
 		holdNth := 1
+		w.mu.Lock()
+		w.killed[x] = true
+		w.mu.Unlock()
 		switch kind {
 		case "keepalive":
 			// A's writes fail: keepaliveLoop closes X and notifies; readLoop then notifies again.
@@ -658,13 +731,21 @@ func c32ManagerCase(r *verifkit.R, phase string, ci int, rng *verifkit.Rand) {
 			w.mu.Lock()
 			w.holdNext[x] = holdNth
 			be := w.bEnds[xs]
-			w.mu.Unlock()
-			if be != nil {
-				be.Close()
+			if be == nil {
+				delete(w.holdNext, x)
 			}
+			w.mu.Unlock()
+			if be == nil {
+				return // the remote end is not known (yet): nothing to close
+			}
+			be.Close()
 		}
 		w.logf("%s on conn#%d, holding teardown #%d", kind, xs, holdNth)
 		var held *c32Teardown
+		// give-up timer: x may die of another cause first, in which case the expected notification
+		// never comes; that is a scenario that did not materialise, not a verdict
+		giveUp := time.Now().Add(3 * time.Second)
+		gaveUp := false
 		if !w.waitFor("the teardown to reach the hook", func() bool {
 			for _, t := range w.teardowns {
 				if t.conn == x && t.nth == holdNth {
@@ -672,9 +753,28 @@ func c32ManagerCase(r *verifkit.R, phase string, ci int, rng *verifkit.Rand) {
 					return true
 				}
 			}
+			if time.Now().After(giveUp) {
+				gaveUp = true
+				return true
+			}
 			return false
 		}) {
 			return
+		}
+		if gaveUp {
+			w.mu.Lock()
+			delete(w.holdNext, x)
+			w.mu.Unlock()
+			w.r.Add("hold_scenarios_that_did_not_materialise", 1)
+			w.logf("expected teardown #%d of conn#%d did not come", holdNth, xs)
+			return
+		}
+		if kind != "remote-close" {
+			// the first report (or Disconnect) must have dropped x's registration before a
+			// replacement can register
+			if !w.waitFor("the dead connection to be unregistered", func() bool { return w.mgr.GetPeer(w.idB) != x }) {
+				return
+			}
 		}
 		// replacement: the reconnector may bring one (outbound persistent peer), otherwise dial
 		if kind == "remote-close" || w.registered() == nil {
@@ -711,9 +811,11 @@ func c32ManagerCase(r *verifkit.R, phase string, ci int, rng *verifkit.Rand) {
 			return
 		}
 		w.judgeTeardowns(judged)
+		w.mu.Lock()
 		if held.stale {
 			staleJudged++
 		}
+		w.mu.Unlock()
 		w.sendOnAll(2)
 	}
 
